@@ -701,8 +701,34 @@ func classifyReturn(ret *ssa.Return) (retClass, ssa.Value) {
 	if !lastResultIsError(fn) {
 		return retSuccess, nil
 	}
-	ev := ret.Results[len(ret.Results)-1]
+	ev := resolveNamedResult(ret, len(ret.Results)-1)
 	return classifyErrValue(ev, ret.Block(), 0), ev
+}
+
+// resolveNamedResult: result #i of ret; when the function has named results and a defer, go/ssa stores the
+// returned value into the result cell, runs the defers and returns a load of the cell - the value stored last in
+// the return's own block is what the return statement wrote (a deferred function may still replace it; the
+// rules that care look at the defers themselves).
+func resolveNamedResult(ret *ssa.Return, i int) ssa.Value {
+	v := ret.Results[i]
+	u, ok := v.(*ssa.UnOp)
+	if !ok || u.Op != token.MUL {
+		return v
+	}
+	al, ok := u.X.(*ssa.Alloc)
+	if !ok {
+		return v
+	}
+	var last ssa.Value
+	for _, in := range ret.Block().Instrs {
+		if st, ok := in.(*ssa.Store); ok && st.Addr == ssa.Value(al) {
+			last = st.Val
+		}
+	}
+	if last != nil {
+		return last
+	}
+	return v
 }
 
 func classifyErrValue(ev ssa.Value, b *ssa.BasicBlock, depth int) retClass {
